@@ -97,6 +97,49 @@ func (v *victim) observe(path string, raw []byte) effect {
 	return e
 }
 
+// looksPadded: block-aligned and ending in a well-formed PKCS#7 pad.
+func looksPadded(p []byte) bool {
+	if len(p) == 0 || len(p)%16 != 0 {
+		return false
+	}
+	n := int(p[len(p)-1])
+	if n == 0 || n > 16 || n > len(p) {
+		return false
+	}
+	for _, b := range p[len(p)-n:] {
+		if int(b) != n {
+			return false
+		}
+	}
+	return true
+}
+
+// padVariantOf: the effect is one NotifyMsg whose payload is the genuine payload with a well-formed
+// PKCS#7 pad appended (grow) or with its own well-formed pad removed (!grow).
+func padVariantOf(eff string, genuine []byte, grow bool) bool {
+	var got []byte
+	if n, _ := fmt.Sscanf(eff, "NotifyMsg:%x", &got); n != 1 {
+		return false
+	}
+	long, short := got, genuine
+	if !grow {
+		long, short = genuine, got
+	}
+	if len(long) <= len(short) || !bytes.Equal(long[:len(short)], short) {
+		return false
+	}
+	pad := long[len(short):]
+	if len(pad) > 16 {
+		return false
+	}
+	for _, b := range pad {
+		if int(b) != len(pad) {
+			return false
+		}
+	}
+	return true
+}
+
 func c14Items(tag int) []c14Item {
 	pad16 := strings.Repeat("\x10", 16)
 	// user payloads whose sealed plaintext (type byte + payload) is a multiple of 16 and ends in a valid-looking pad
@@ -123,6 +166,11 @@ func c14Items(tag int) []c14Item {
 		{"compound", "packet", MakeCompound([][]byte{append([]byte{TUser}, []byte(fmt.Sprintf("cmp-%06d", tag))...), Enc(TPing, &WPing{SeqNo: uint32(730000 + tag), Node: "V", SourceAddr: x, SourcePort: 7946, SourceNode: "x"})}), false, 1},
 		{"stream-user", "stream", BuildUserStream([]byte(fmt.Sprintf("reliable-%06d-tail\x01", tag))), false, 1},
 		{"stream-ping", "stream", Enc(TPing, &WPing{SeqNo: uint32(740000 + tag), Node: "V"}), false, 1},
+		// plaintexts that merely END in a small byte: neither block-aligned nor validly padded; a receiver
+		// that trusts the last byte after a version-byte flip would deliver them truncated
+		{"user-tail03-unaligned", "packet", append([]byte{TUser}, []byte(fmt.Sprintf("seq-update:%06d:node-7:\x00\x00\x00\x03", tag))...), false, 1},
+		{"user-tail03-badpad", "packet", append([]byte{TUser}, []byte(fmt.Sprintf("aligned:%06d:0123456789abcdef0123456789abc\x00\x00\x03", tag))...), false, 1},
+		{"stream-user-tail03", "stream", BuildUserStream([]byte(fmt.Sprintf("reliable-%06d-unaligned-tail\x00\x00\x03", tag))), false, 1},
 		{"stream-pushpull", "stream", BuildPushPull(false, []WPushNodeState{{Name: "x", Addr: x, Port: 7946, Incarnation: 1, State: SAlive, Vsn: DefaultVsn()}}, []byte(fmt.Sprintf("state-%06d", tag))), false, 1},
 	}
 }
@@ -186,6 +234,16 @@ func runC14(run *Run, seed int64, cfg hostCfg, items []int, id string, full bool
 		key := fmt.Sprintf("%s/%s", it.Path, class)
 		if class == "flip@encver" {
 			key = fmt.Sprintf("%s/flip@encver/%d->%d", it.Path, cfg.EncVsn, 1-cfg.EncVsn)
+			// the registered finding covers only genuine version-1 plaintexts that are block-aligned and end
+			// in a well-formed PKCS#7 pad; acceptance of anything else after the flip is a different defect
+			if cfg.EncVsn == 1 && !looksPadded(it.Plain) {
+				key += "/not-a-valid-pad"
+			}
+			// ... and, for 1->0, only the delivery of the genuine user payload minus that pad; for 0->1 only
+			// the delivery of the genuine user payload plus its well-formed pad
+			if len(it.Plain) > 0 && it.Plain[0] == TUser && !(len(got) == 1 && padVariantOf(got[0], it.Plain[1:], cfg.EncVsn == 0)) {
+				key += "/other-effect"
+			}
 		}
 		if seenKeys[key+it.Name] {
 			return
@@ -361,7 +419,7 @@ func TestC14(t *testing.T) {
 	k := 0
 	for rep := 0; rep < run.Pick(1, 80); rep++ {
 		for ci, cfg := range cfgs {
-			for g := 0; g < 3; g++ {
+			for g := 0; g < 4; g++ {
 				k++
 				id := fmt.Sprintf("cfg%d/group%d/rep%d", ci, g, rep)
 				if !run.Mine(k) || !run.Want(id) {
